@@ -141,12 +141,12 @@ type wres struct {
 	Code    codes.Code
 	HasMsg  bool
 	Msg     mm
-	ID      string   // effective (generated) id reported through the id callback
-	IDCalls int      // number of id callback invocations
-	Created int      // number of created callbacks
-	List    []mm     // list result
-	Found   bool     // Get on a collection
-	NonFlat bool     // the real result carried fields outside the model's
+	ID      string // effective (generated) id reported through the id callback
+	IDCalls int    // number of id callback invocations
+	Created int    // number of created callbacks
+	List    []mm   // list result
+	Found   bool   // Get on a collection
+	NonFlat bool   // the real result carried fields outside the model's
 }
 
 func (r wres) String() string {
@@ -321,14 +321,14 @@ func (r *simRNG) Read(p []byte) (int, error) {
 // ---- the real resource under test --------------------------------------------------------------------------------
 
 type resCfg struct {
-	Coll        bool
-	HasW        bool
-	W           []string
-	LowerIDs    bool // id interceptor: strings.ToLower
-	Equiv       bool // WithNoDuplicates-like equivalence on the flat fields
-	Initial     map[string]mm
-	HasInitial  bool // Value: initial value present
-	InitialVal  mm
+	Coll       bool
+	HasW       bool
+	W          []string
+	LowerIDs   bool // id interceptor: strings.ToLower
+	Equiv      bool // WithNoDuplicates-like equivalence on the flat fields
+	Initial    map[string]mm
+	HasInitial bool // Value: initial value present
+	InitialVal mm
 }
 
 type realRes struct {
